@@ -316,7 +316,7 @@ func getEngine() flows.Engine {
 }
 
 func resetWorld(seed uint64) {
-	uuids.SetGenerator(uuids.NewSeededGenerator(int64(seed), time.Now))
+	uuids.SetGenerator(uuids.NewSeededGenerator(int64(seed), dates.Now)) // no wall clock anywhere
 	dates.SetNowFunc(dates.NewSequentialNow(time.Date(2018, 7, 6, 12, 30, 0, 123456789, time.UTC), time.Second))
 	random.SetGenerator(random.NewSeededGenerator(int64(seed)))
 }
